@@ -76,6 +76,9 @@ type vnOp struct {
 	Ts        *int                   `json:"ts"` // nget: the timestamp parameter; null = absent
 	Class     string                 `json:"class,omitempty"`
 	Cfg       int                    `json:"cfg,omitempty"`
+	Query     []vnTerm               `json:"query,omitempty"`
+	Index     []vnIndexEntry         `json:"index,omitempty"`
+	CI        bool                   `json:"ci,omitempty"` // LIKE compares ASCII letters case-insensitively (SQLite)
 	Seed      int64                  `json:"seed,omitempty"` // nconf: VERIF_SEED of the run (replay: VERIF_SEED=<seed> VERIF_NODE_ONLY=<cfg>)
 }
 
@@ -108,6 +111,8 @@ type vnRunner struct {
 	nOps int
 	n    int
 	seed int64
+	cfgDir string
+	cfgIDs []string
 }
 
 func (r *vnRunner) emit(op vnOp, line string) {
@@ -335,26 +340,11 @@ func (r *vnRunner) configure() bool {
 	// the real node
 	w := &vWorld{t: r.t, t0: op.T0, byRaw: map[string]*vBuilt{}, byID: map[string]*vBuilt{}, credPool: map[string]vc.VerifiableCredential{}, noise: map[string]string{}}
 	r.w = w
-	ctrl := gomock.NewController(r.t)
-	mv := verifier.NewMockVerifier(ctrl)
-	mv.EXPECT().VerifyVP(gomock.Any(), true, true, nil).DoAndReturn(
-		func(p vc.VerifiablePresentation, _ bool, _ bool, _ *time.Time) ([]vc.VerifiableCredential, error) {
-			if b := w.byRaw[p.Raw()]; b != nil && b.rec.VerifyS {
-				return p.VerifiableCredential, nil
-			}
-			return nil, errors.New("verif: signature invalid")
-		}).AnyTimes()
-	mvcr := vcr.NewMockVCR(ctrl)
-	mvcr.EXPECT().Verifier().Return(mv).AnyTimes()
 	if err := vTables(r.eng.GetSQLDatabase()); err != nil {
 		r.t.Fatal(err)
 	}
-	m := New(r.eng, mvcr, didsubject.NewMockManager(ctrl), resolver.NewMockDIDResolver(ctrl))
-	cfg := m.Config().(*Config)
-	*cfg = DefaultConfig()
-	cfg.Client.RefreshInterval = 0
-	cfg.Definitions.Directory = op.Dir
-	cfg.Server.IDs = op.ServerIDs
+	r.cfgDir, r.cfgIDs = op.Dir, op.ServerIDs
+	m := r.newNode()
 	var cerr error
 	cls := vRecover(func() error { cerr = m.Configure(core.TestServerConfig()); return nil })
 	if cls == "ok" {
@@ -391,6 +381,44 @@ func (r *vnRunner) configure() bool {
 	}
 	r.emit(op, line)
 	return ok && len(r.all) > 0
+}
+
+// newNode builds a Module the way the node does (Config() filled in), on the runner's database
+func (r *vnRunner) newNode() *Module {
+	w := r.w
+	ctrl := gomock.NewController(r.t)
+	mv := verifier.NewMockVerifier(ctrl)
+	mv.EXPECT().VerifyVP(gomock.Any(), true, true, nil).DoAndReturn(
+		func(p vc.VerifiablePresentation, _ bool, _ bool, _ *time.Time) ([]vc.VerifiableCredential, error) {
+			if b := w.byRaw[p.Raw()]; b != nil && b.rec.VerifyS {
+				return p.VerifiableCredential, nil
+			}
+			return nil, errors.New("verif: signature invalid")
+		}).AnyTimes()
+	mvcr := vcr.NewMockVCR(ctrl)
+	mvcr.EXPECT().Verifier().Return(mv).AnyTimes()
+	m := New(r.eng, mvcr, didsubject.NewMockManager(ctrl), resolver.NewMockDIDResolver(ctrl))
+	cfg := m.Config().(*Config)
+	*cfg = DefaultConfig()
+	cfg.Client.RefreshInterval = 0
+	cfg.Definitions.Directory = r.cfgDir
+	cfg.Server.IDs = r.cfgIDs
+	return m
+}
+
+// restart: the node goes down and comes back with the same configuration on the same database
+func (r *vnRunner) restart() {
+	_ = r.m.Shutdown()
+	m := r.newNode()
+	cls := vRecover(func() error {
+		if err := m.Configure(core.TestServerConfig()); err != nil {
+			return err
+		}
+		m.httpClient = r.rec
+		return m.Start()
+	})
+	r.m = m
+	r.emit(vnOp{Op: "nrestart", Now: vNow(), ServerIDs: []string{}}, "nrestart "+cls+r.lists())
 }
 
 func (r *vnRunner) lists() string {
@@ -631,6 +659,149 @@ func (r *vnRunner) search() {
 	r.emit(vnOp{Op: "nsearch", Now: vNow(), Sid: sid, ServerIDs: []string{}}, "nsearch "+line)
 }
 
+type vnCred struct {
+	ID        string      `json:"id"`
+	Issuer    string      `json:"issuer"`
+	Type      *string     `json:"type"`
+	SubjectID string      `json:"subjectId"`
+	Props     []vnPropKV  `json:"props"`
+}
+type vnPropKV struct {
+	P string `json:"p"`
+	V string `json:"v"`
+}
+type vnIndexEntry struct {
+	PID   string   `json:"pid"`
+	Creds []vnCred `json:"creds"`
+}
+type vnTerm struct {
+	K string `json:"k"`
+	V string `json:"v"`
+}
+
+// searchq: Module.Search with a query (store.go applyQuery: wildcards, columns vs indexed properties, every term on ONE
+// credential). What CredentialStore.Store indexed of the list's credentials is read from the tables and told to the model.
+func (r *vnRunner) searchq() {
+	rng := r.rng
+	sid := r.sid()
+	if rng.Intn(5) != 0 {
+		// mostly a list that holds something
+		var any []presentationRecord
+		r.m.store.db.Find(&any)
+		if len(any) > 0 {
+			sid = any[rng.Intn(len(any))].ServiceID
+		}
+	}
+	var rows []presentationRecord
+	r.m.store.db.Preload("Credentials").Preload("Credentials.Credential").Preload("Credentials.Credential.Properties").Find(&rows, "service_id = ?", sid)
+	index := []vnIndexEntry{}
+	var subjects, urls []string
+	for _, row := range rows {
+		e := vnIndexEntry{PID: row.PresentationID, Creds: []vnCred{}}
+		for _, c := range row.Credentials {
+			vcx := vnCred{ID: c.Credential.ID, Issuer: c.Credential.Issuer, Type: c.Credential.Type, SubjectID: c.Credential.SubjectID, Props: []vnPropKV{}}
+			for _, p := range c.Credential.Properties {
+				vcx.Props = append(vcx.Props, vnPropKV{p.Path, p.Value})
+				if strings.HasSuffix(p.Path, "authServerURL") {
+					urls = append(urls, p.Value)
+				}
+			}
+			sort.Slice(vcx.Props, func(i, j int) bool { return vcx.Props[i].P < vcx.Props[j].P })
+			e.Creds = append(e.Creds, vcx)
+			subjects = append(subjects, c.Credential.SubjectID)
+		}
+		sort.Slice(e.Creds, func(i, j int) bool { return e.Creds[i].ID < e.Creds[j].ID })
+		index = append(index, e)
+	}
+	sort.Slice(index, func(i, j int) bool { return index[i].PID < index[j].PID })
+	subj := vnSubjects[rng.Intn(len(vnSubjects))]
+	if len(subjects) > 0 && rng.Intn(3) != 0 {
+		subj = subjects[rng.Intn(len(subjects))]
+	}
+	url := "https://verif.example/oauth2/none"
+	if len(urls) > 0 {
+		url = urls[rng.Intn(len(urls))]
+	}
+	last := subj[strings.LastIndex(subj, ":")+1:]
+	var q []vnTerm
+	switch rng.Intn(22) {
+	case 0:
+		q = []vnTerm{{"credentialSubject.id", subj}}
+	case 1:
+		q = []vnTerm{{"credentialSubject.id", "did:example:*"}}
+	case 2:
+		q = []vnTerm{{"credentialSubject.id", "*:" + last}}
+	case 3:
+		q = []vnTerm{{"credentialSubject.id", "*example*"}}
+	case 4:
+		q = []vnTerm{{"issuer", "did:example:authority"}}
+	case 5:
+		q = []vnTerm{{"issuer", []string{"*", " * ", "**", "*:authority"}[rng.Intn(4)]}}
+	case 6:
+		q = []vnTerm{{"issuer", "DID:EXAMPLE:AUTHORITY"}} // "=": exact
+	case 7:
+		q = []vnTerm{{"issuer", "DID:EXAMPLE:*"}} // LIKE: SQLite compares ASCII letters case-insensitively
+	case 8:
+		q = []vnTerm{{"credentialSubject.authServerURL", "*"}}
+	case 9:
+		q = []vnTerm{{"credentialSubject.authServerURL", url[:len(url)/2] + "*"}}
+	case 10:
+		// issuer and authServerURL sit on DIFFERENT credentials: every term must hold of ONE credential
+		q = []vnTerm{{"issuer", "did:example:authority"}, {"credentialSubject.authServerURL", "*"}}
+	case 11:
+		q = []vnTerm{{"issuer", subj}, {"credentialSubject.authServerURL", "*"}} // the self-issued credential has both
+	case 12:
+		q = []vnTerm{{"type", []string{"TestCredential", "*Credential", "Test*", "DiscoveryRegistrationCredential", "*"}[rng.Intn(5)]}}
+	case 13:
+		q = []vnTerm{{"credentialSubject.org", []string{"x", "y", "*", "X"}[rng.Intn(4)]}}
+	case 14:
+		q = []vnTerm{{"credentialSubject.nothing", "*"}}
+	case 15:
+		q = []vnTerm{{"id", []string{"*", "did:example:authority#*", "*#org-*"}[rng.Intn(3)]}}
+	case 16:
+		q = []vnTerm{{"credentialSubject.id", "did:example:s_*"}} // "_" is LIKE's one-character wildcard
+	case 17:
+		q = []vnTerm{{"credentialSubject.id", "did:example:s_"}} // …but not of "="
+	case 18:
+		q = []vnTerm{{"credentialSubject.id", subj}, {"issuer", "did:example:authority"}, {"credentialSubject.org", "x"}}
+	case 19:
+		q = []vnTerm{{"credentialSubject.id", subj}, {"credentialSubject.org", "*"}, {"credentialSubject.authServerURL", "*"}}
+	case 20:
+		q = []vnTerm{{"credentialSubject.id", "a*b"}}
+	default:
+		q = []vnTerm{}
+	}
+	qm := map[string]string{}
+	for _, t := range q {
+		qm[t.K] = t.V
+	}
+	var line string
+	cls := vRecover(func() error {
+		res, err := r.m.Search(sid, qm)
+		if err != nil {
+			if errors.Is(err, ErrServiceNotFound) {
+				line = "not-found"
+				return nil
+			}
+			return err
+		}
+		var es []string
+		for _, x := range res {
+			es = append(es, x.Presentation.ID.String())
+		}
+		sort.Strings(es)
+		line = "[" + strings.Join(es, " ") + "]"
+		return nil
+	})
+	if cls != "ok" {
+		line = cls
+	}
+	if q == nil {
+		q = []vnTerm{}
+	}
+	r.emit(vnOp{Op: "nsearchq", Now: vNow(), Sid: sid, ServerIDs: []string{}, Query: q, Index: index, CI: true}, "nsearchq "+line)
+}
+
 func TestVerifC16Node(t *testing.T) {
 	outDir := os.Getenv("VERIF_OUT")
 	if outDir == "" {
@@ -677,14 +848,21 @@ func TestVerifC16Node(t *testing.T) {
 			continue
 		}
 		for k := 0; k < nOps; k++ {
-			switch p := r.rng.Intn(10); {
-			case p < 6:
+			switch p := r.rng.Intn(26); {
+			case p == 20:
+				r.restart()
+			case p > 20:
+				r.searchq()
+			case p < 12:
 				r.register()
-			case p < 9:
+			case p < 18:
 				r.get()
 			default:
 				r.search()
 			}
+		}
+		for k := 0; k < 4; k++ { // the lists are filled by now
+			r.searchq()
 		}
 	}
 	t.Logf("C16 node: %d ops", r.nOps)
